@@ -67,6 +67,20 @@ def run_overlap(params, prefix):
     W.set_random('ovl')
     W.set_clock()
     holder = {}
+    if params.get('fail'):
+        # the k-th chunk upload (of whichever of the two commands issues it) fails for good
+        cnt = {'n': 0, 'name': None}
+
+        def fault(kind, name, idx):
+            if kind == 'upload_stream' and name.startswith('data/'):
+                if name != cnt['name'] and cnt['name'] is None:
+                    cnt['n'] += 1
+                    if cnt['n'] == params['fail']:
+                        cnt['name'] = name
+                if name == cnt['name']:
+                    raise OSError(5, 'injected: upload fails for good')
+
+        store.fault = fault
 
     async def one(i, uname, cmd):
         repo = await W.a_open(store, H.user_obj(st0, uname), N=2, backend=W.AMemBackend)
@@ -87,7 +101,13 @@ def run_overlap(params, prefix):
     async def go():
         import asyncio
         with W.captured():
-            await asyncio.gather(one(0, params['u0'], params['c0']), one(1, params['u1'], params['c1']))
+            res = await asyncio.gather(one(0, params['u0'], params['c0']), one(1, params['u1'], params['c1']),
+                                       return_exceptions=bool(params.get('fail')))
+            if params.get('fail'):
+                # one of the two may fail with the injected error; whatever completed must stay intact
+                for r_ in res:
+                    if isinstance(r_, BaseException) and not isinstance(r_, OSError):
+                        raise r_
 
     x = dsched.run_one(lambda loop, s: go(), prefix, horizon=8000, want_env=True)
     viol = []
@@ -186,6 +206,11 @@ def main():
                     for (u0, u1) in (('A', 'A'), ('A', 'B'), ('A', 'C')) if t == 'quick' else \
                             (('A', 'A'), ('A', 'B'), ('B', 'A'), ('A', 'C'), ('C', 'A')):
                         pairs.append({'pre': pre, 'c0': c0, 'c1': c1, 'u0': u0, 'u1': u1})
+        # two snapshots at the same time, one of them meeting a chunk upload that fails for good: the other's result
+        # (and everything that was there before) stays restorable
+        for k in (1, 2, 3):
+            for (u0, u1) in (('A', 'B'), ('A', 'A')):
+                pairs.append({'pre': 's1', 'c0': 'snapshot', 'c1': 'snapshot', 'u0': u0, 'u1': u1, 'fail': k, '_bf': 1})
         tot = explore.Agg()
         for p in pairs:
             snap = 'snapshot' in (p['c0'], p['c1'])
@@ -198,6 +223,8 @@ def main():
         det = True
         for p in pairs:
             b = p.pop('_b', 1)
+            if '_bf' in p:
+                b = p.pop('_bf')
             agg, info = explore.explore(run_overlap, p, b)
             det &= info['deterministic_replay']
             for sig, detail in agg.viol:
